@@ -200,6 +200,25 @@ func c03SaveContentRule(c *eng.Ctx, k *kvAnalysis, rule string) {
 				arg, _, ok = marshalArg(data)
 			}
 			if !ok {
+				// bytes taken from something the store keeps between saves (a
+				// scratch buffer, a cached document): what is written then
+				// depends on earlier saves, failed ones included
+				stale := c.P.DependsOn(call.Call.Args[1], func(v ssa.Value) bool {
+					fr, _, isF := eng.LoadedField(v)
+					if isF && eng.IsNamed(fr.Owner, "db", "kv") {
+						return true
+					}
+					if fa, isFA := v.(*ssa.FieldAddr); isFA {
+						if fr2, okF := eng.FieldOfAddr(fa); okF && eng.IsNamed(fr2.Owner, "db", "kv") {
+							return true
+						}
+					}
+					return false
+				})
+				if stale {
+					c.Bad(rule, f, in.Pos(), site+" [fresh document]", "the bytes written are serialised for this very save (json.Marshal of the current state), not taken from a buffer kept in the store", "data argument "+eng.ValStr(call.Call.Args[1])+" comes from a field of kv")
+					return
+				}
 				c.Undecided(rule, f, in.Pos(), site, "data argument is not the result of json.Marshal (directly or through a helper of the same kv): "+eng.ValStr(call.Call.Args[1]))
 				return
 			}
